@@ -116,9 +116,30 @@ impl Prop for C12 {
         // ---- rules
         let wp = |w: usize, l: &str| format!("p{}{}", wnames[w % nw], l);
         let mut rules: Vec<String> = Vec::new();
-        let nr = rng.range(1, 4);
+        let chains = !ambiguous && rng.chance(1, 4);
+        if chains {
+            // derivations of different lengths reaching the same fact, and facts derived from it: within one evaluation
+            // a fact's expiry may improve several times and every improvement has to reach its consequences
+            stats.hit("chain_program");
+            let mut outs = vec!["r", "s", "t", "h", "d"];
+            rng.shuffle(&mut outs);
+            rules.push(format!("vx.{}.vy~>vx.pout/{}.vy", wp(0, locals[0]), outs[0]));
+            rules.push(format!("vx.{}.vy~>vx.pout/{}.vy", wp(1, locals[1]), outs[1]));
+            rules.push(format!("vx.pout/{}.vy~>vx.pout/{}.vy", outs[1], outs[2]));
+            rules.push(format!("vx.pout/{}.vy~>vx.pout/{}.vy", outs[2], outs[0]));
+            rules.push(format!("vx.pout/{}.vy~>vx.pout/{}.vy", outs[0], outs[3]));
+            if rng.chance(1, 2) {
+                rules.push(format!("vx.pout/{}.vy,vy.pout/{}.vz~>vx.pout/{}.vz", outs[3], outs[0], outs[4]));
+            }
+            if rng.chance(1, 3) {
+                let k = rng.below(rules.len());
+                rules.remove(k);
+            }
+            rng.shuffle(&mut rules);
+        }
+        let nr = if chains { rng.range(0, 2) } else { rng.range(1, 4) };
         for _ in 0..nr {
-            let k = rng.below(9);
+            let k = rng.below(13);
             stats.hit(&format!("rule_shape_{}", k));
             let r = match k {
                 0 => format!("vx.{}.vy,vy.{}.vz~>vx.pout/r.vz", wp(0, locals[0]), wp(1, locals[1])),
@@ -129,6 +150,10 @@ impl Prop for C12 {
                 5 => format!("vx.{}.vy~>vy.{}.vx", wp(0, locals[0]), wp(0, locals[0])),
                 6 => format!("vx.{}.vy,vx.{}.vy~>vx.pout/both.vy", wp(0, locals[0]), wp(1, locals[1])),
                 7 => format!("vx.{}.vy~>vx.pout/r.vy", wp(rng.below(nw), locals[rng.below(2)])),
+                9 => "vx.pout/r.vy~>vx.pout/s.vy".to_string(),
+                10 => "vx.pout/s.vy~>vx.pout/t.vy".to_string(),
+                11 => "vx.pout/t.vy~>vx.pout/r.vy".to_string(),
+                12 => "vx.pout/r.vy~>vx.pout/h.vy".to_string(),
                 _ => format!("vx.{}.vy,vy.{}.vz~>vx.{}.vz", wp(0, locals[0]), wp(0, locals[0]), wp(0, locals[0])),
             };
             rules.push(r);
